@@ -594,3 +594,111 @@ Proof.
     rewrite (elements_spec bl Ht), Hmap. reflexivity. }
   split; [exact Hp|]. unfold parse_requests. rewrite Hp, map_map. reflexivity.
 Qed.
+
+(* ------------------------------------------------------------------------- *)
+(* Part F: what is FALSE without the domain conditions (concrete witnesses, closed by vm_compute) *)
+
+(* The error codec specification as it was first written (no condition on e): refuted twice.
+   The _partial C13 theorems that assumed it were therefore vacuous. *)
+Definition spec_error_codec_unrestricted : Prop := forall e b, marshal_error e = Some b ->
+  (forall d, tight_at d b = true) /\
+  unmarshal_error b = (Some {| we_code := we_code e;
+                               we_msg := if valid_utf8 (we_msg e) then we_msg e else snd (true, match unmarshal_string (escape_string (we_msg e)) with Some (Some x) => x | _ => [] end);
+                               we_data := match compact (we_data e) with Some q => if beq (we_data e) [] then [] else q | None => [] end |}, true).
+
+(* a code outside int32 (the model's code is a Z, Go's is an int32) is written but not read back *)
+Definition big_code_err : werr := {| we_code := 2147483648%Z; we_msg := []; we_data := [] |}.
+Lemma spec_error_codec_unrestricted_refuted : ~ spec_error_codec_unrestricted.
+Proof.
+  intros H. destruct (H big_code_err _ eq_refl) as [_ Hu]. vm_compute in Hu. discriminate Hu.
+Qed.
+
+(* an object is not a value at depth 10000: "tight at every depth" is false for every error object *)
+Lemma spec_error_codec_unrestricted_refuted_depth : ~ spec_error_codec_unrestricted.
+Proof.
+  intros H. destruct (H {| we_code := 1%Z; we_msg := []; we_data := [] |} _ eq_refl) as [Ht _].
+  specialize (Ht 10000). vm_compute in Ht. discriminate Ht.
+Qed.
+
+(* the round-trip domain without its condition on the error (the first four fields of msg_rt_at 0) *)
+Definition msg_rt_no_error (m : jmsg) : Prop :=
+  valid_utf8 (j_method m) = true /\
+  (j_id m = [] \/ is_str_lit (j_id m) || is_num_lit (j_id m) = true) /\
+  (j_params m = [] \/ (tight_at 1 (j_params m) = true /\ params_ok (j_params m) = true /\ is_null (j_params m) = false)) /\
+  (j_result m = [] \/ tight_at 1 (j_result m) = true).
+
+Definition big_code_rsp : jmsg :=
+  {| j_id := [49]; j_method := []; j_params := []; j_error := Some big_code_err; j_result := []; j_err := None |}.
+
+Lemma parse_back_refuted_without_rt_error :
+  exists m b, msg_rt_no_error m /\ enc_msg m = Some b /\ parse_member b <> canon m.
+Proof.
+  exists big_code_rsp. eexists. split; [|split; [vm_compute; reflexivity|]].
+  - split; [reflexivity|]. split; [right; reflexivity|]. split; left; reflexivity.
+  - vm_compute. discriminate.
+Qed.
+
+(* encoding/json's nesting limit (10000) counts the envelope.  [deep n] = n nested arrays. *)
+Definition deep (n : N) : bytes := repeat 91 (N.to_nat n) ++ repeat 93 (N.to_nat n).
+
+(* error data nested 9999 deep is valid JSON on its own and is marshalled, but the response that
+   carries it (two containers further down) is rejected as not JSON by the library's own parser;
+   9998 levels are fine *)
+Definition deep_err (n : N) : werr := {| we_code := 1%Z; we_msg := []; we_data := deep n |}.
+Definition deep_rsp (n : N) : jmsg :=
+  {| j_id := [49]; j_method := []; j_params := []; j_error := Some (deep_err n); j_result := []; j_err := None |}.
+
+Lemma deep_rsp_rt d n : tight_at (N.succ (N.succ d)) (deep n) = true -> compact (deep n) = Some (deep n) -> msg_rt_at d (deep_rsp n).
+Proof.
+  intros H1 H2. constructor.
+  - reflexivity.
+  - right; reflexivity.
+  - left; reflexivity.
+  - left; reflexivity.
+  - intros e He _ _. change (j_error (deep_rsp n)) with (Some (deep_err n)) in He. injection He as <-.
+    split; [unfold int32_ok; change (we_code (deep_err n)) with 1%Z; split; discriminate|].
+    right. exists (deep n). change (we_data (deep_err n)) with (deep n). split; assumption.
+Qed.
+
+Lemma parse_back_refuted_deep_error_data :
+  msg_rt_no_error (deep_rsp 9999) /\ int32_ok (we_code (deep_err 9999)) /\
+  compact (deep 9999) = Some (deep 9999) /\
+  (exists b, enc_msg (deep_rsp 9999) = Some b /\ parse_msgs b = InBad /\ j_err (parse_member b) <> j_err (canon (deep_rsp 9999))) /\
+  msg_rt (deep_rsp 9998).
+Proof.
+  split; [|split; [|split; [|split]]].
+  - split; [reflexivity|]. split; [right; reflexivity|]. split; left; reflexivity.
+  - unfold int32_ok. change (we_code (deep_err 9999)) with 1%Z. split; discriminate.
+  - vm_compute. reflexivity.
+  - eexists. split; [vm_compute; reflexivity|]. split; [vm_compute; reflexivity|]. vm_compute. discriminate.
+  - apply deep_rsp_rt; vm_compute; reflexivity.
+Qed.
+
+(* a request whose params are nested 9999 deep round-trips alone (msg_rt) but not as a batch member:
+   the batch theorem needs msg_rt_at 1 *)
+Definition deep_req (n : N) : jmsg :=
+  {| j_id := [49]; j_method := [109]; j_params := deep n; j_error := None; j_result := []; j_err := None |}.
+
+Lemma deep_req_rt d n : tight_at (N.succ d) (deep n) = true -> params_ok (deep n) = true -> is_null (deep n) = false ->
+  msg_rt_at d (deep_req n).
+Proof.
+  intros H1 H2 H3. constructor.
+  - reflexivity.
+  - right; reflexivity.
+  - right. change (j_params (deep_req n)) with (deep n). repeat split; assumption.
+  - left; reflexivity.
+  - intros e He. discriminate He.
+Qed.
+
+Lemma parse_back_batch_refuted_at_depth_0 :
+  msg_rt (deep_req 9999) /\
+  (exists b, enc_msg (deep_req 9999) = Some b /\ parse_msgs b = InMsgs false [canon (deep_req 9999)]) /\
+  (exists b, enc_msgs true [deep_req 9999] = Some b /\ parse_msgs b = InBad) /\
+  msg_rt_at 1 (deep_req 9998).
+Proof.
+  split; [|split; [|split]].
+  - apply deep_req_rt; vm_compute; reflexivity.
+  - eexists. split; [vm_compute; reflexivity | vm_compute; reflexivity].
+  - eexists. split; [vm_compute; reflexivity | vm_compute; reflexivity].
+  - apply deep_req_rt; vm_compute; reflexivity.
+Qed.
